@@ -169,7 +169,9 @@ def run_special(acc, api):
 
 
 NEAR = ['-nan', '+nan', '+NaN', '-NaN', ' -nan ', 'nan ', ' nan', '-Infinity', '+Infinity', '+infinity', ' inf', '-INF', 'nan', 'NaN', 'inf', '-inf', 'Infinity', '+inf', '1e999', '-1e999', '12abc', '1.2.3', '--1', '1e', '', ' ', '0x10', '1,5', 'abc', '1e+', '.', '-', '+',
-        'e5', '1 2', '1..2', 'null', 'true', '1e5.5', '0b11', '1f', 'nan1', 'infinity', '- 1', '1-']
+        'e5', '1 2', '1..2', 'null', 'true', '1e5.5', '0b11', '1f', 'nan1', 'infinity', '- 1', '1-',
+        # underscores at an end of the text (only an INNER underscore is a tolerated liberal extra of the pinned tree)
+        '_15', '15_', '1.5_', '_1.5', '__2e+22', '_ 7 _', '_', '1_']
 GOOD = [('0', 0), ('1', 1), ('-1', -1), ('1.5', 1.5), ('1e3', 1000), ('1E3', 1000), ('-2.5e-3', -0.0025), ('007', 7), ('1.', 1), ('.5', 0.5), ('+3', 3),
         ('123456789012345678', 123456789012345678.0)]
 
@@ -200,6 +202,16 @@ def run_parsers(spec, acc, api):
                 acc.violation('near-miss-accepted', f'numberParseInt({t!r}, {radix}) = {w!r}', {'text': t, 'radix': radix})
             if w is not None and (not isinstance(w, int) or isinstance(w, bool)):
                 acc.violation('parse-int-type', f'numberParseInt({t!r}, {radix}) = {w!r}', {'text': t})
+    # a radix prefix is part of ONE numeral: nothing but digits of the radix may follow it
+    for t, radix in [('0x-5', 16), ('0x 12', 16), ('0x0x10', 16), (' 0x -1f', 16), ('0x+5', 16), ('0X-a', 16), ('0x', 16), ('0b-1', 2), ('0b 1', 2), ('0o 7', 8), ('0o-7', 8), ('0b0b1', 2), ('0x-0x5', 16)]:
+        acc.case(('prefix-then-sign', t, radix), True)
+        try:
+            w = pi([t, radix], None)
+        except Exception as exc:  # pylint: disable=broad-except
+            acc.violation('parse-int-raised', f'{t!r} radix {radix}: {exc!r}', {'text': t})
+            continue
+        if w is not None:
+            acc.violation('near-miss-accepted', f'numberParseInt({t!r}, {radix}) = {w!r}', {'text': t, 'radix': radix})
     # numberParseInt never takes the integral part of a non-integer spelling (fractions, exponents): null, in every radix <= 10
     for t in ['1.5e+0', '1.2345e+2', '1e+2', '2.5e+1', '1.0e+0', '1e2', '1E2', '12.0', '12.', '.5', '+-1', '0.0', '1.5', '9.99e+1', '5e-1']:
         for radix in (None, 10, 8):
